@@ -54,6 +54,10 @@ static bool make(const std::string& n, Named& out) {
     else if (n == "s_1") { out = {json("1"), K("string")}; }
     else if (n == "s_bigint") { out = {json("18446744073709551616", semantic_tag::bigint), K("bigint")}; }
     else if (n == "s_bigint_small") { out = {json("1", semantic_tag::bigint), K("bigint")}; }
+    else if (n == "s_bigint_near") { out = {json("18446744073709551617", semantic_tag::bigint), K("bigint")}; }       // same nearest double as s_bigint
+    else if (n == "s_bigint_neg") { out = {json("-123456789012345678901234567890", semantic_tag::bigint), K("bigint")}; }
+    else if (n == "s_bigint_neg_near") { out = {json("-123456789012345678901234567891", semantic_tag::bigint), K("bigint")}; }
+    else if (n == "s_bigdec_near") { out = {json("1.50", semantic_tag::bigdec), K("bigdec")}; }
     else if (n == "s_bigdec") { out = {json("1.5", semantic_tag::bigdec), K("bigdec")}; }
     else if (n == "bytes_empty") { out = {json(byte_string_arg, std::vector<uint8_t>{}), K("bytes")}; }
     else if (n == "bytes_12") { out = {json(byte_string_arg, std::vector<uint8_t>{1, 2}), K("bytes")}; }
